@@ -40,7 +40,8 @@ ID = "C08"
 LEVEL = "exploration"
 RULE = (
     "Hypothesis-generated packages (profile all_fields: 1-5 modules in regular or two-portion namespace layout; classes, "
-    "functions, overloads, properties, attributes, instance attributes, docstrings in the style of the selected parser, "
+    "dataclasses, functions, overloads, properties, attributes, instance attributes and defs nested in __init__, docstrings in "
+    "the style of the selected parser, "
     "imports of every form incl. wildcards and missing modules; every expression slot filled from a recursive generator over "
     "all 28 node types of _griffe.expressions._node_map) x agent {static, dynamic} x alias resolution {off, default, implicit} x "
     "docstring parser {none, google, numpy, sphinx} x cwd {outside, inside the search path}; plus the 5 fixed built-in modules "
@@ -248,7 +249,9 @@ def _kind_of(path) -> str:
     while "members" in p:
         i = p.index("members")
         p = p[i + 2 :] if len(p) > i + 1 else p[i + 1 :]
-    return ".".join(p) or "<root>"
+    if not p:
+        return "member" if "members" in path else "<root>"
+    return ".".join(p)
 
 
 def _short(v, root=None) -> str:
@@ -420,38 +423,39 @@ def _compare_summaries(before, after, form: str, root) -> list[Fail]:
                 f"{form} form: reloaded tree differs from the original at {'.'.join(path)}: original {_short(a, root)} / reloaded {_short(b, root)}",
             )
         )
-    # names: report every distinct field (slot) whose names resolve differently, keyed by slot
-    seen = set()
-    for path, a, b in _all_name_diffs(_split(before, True), _split(after, True)):
-        kind = _kind_of(path)
-        if kind in seen:
-            continue
-        seen.add(kind)
+    # names: one Fail per field (slot) whose names resolve differently; its detail lists every such place, so that a
+    # known-finding predicate has to explain all of them
+    groups: dict = {}
+    for path, where, a, b in _all_name_diffs(_split(before, True), _split(after, True)):
+        groups.setdefault(_kind_of(path), []).append((path, where, a, b))
+    for kind, diffs in groups.items():
+        path, _where, a, b = diffs[0]
         fails.append(
             Fail(
                 "names-resolve",
                 f"{form}:{kind}",
-                f"{form} form: names resolve differently after reload at {'.'.join(path)}: before {_short(a, root)} / after {_short(b, root)}",
-                {"before": a, "after": b},
+                f"{form} form: names resolve differently after reload at {'.'.join(path)} ({len(diffs)} place(s)): before {_short(a, root)} / after {_short(b, root)}",
+                {"diffs": [{"where": list(w), "before": x, "after": y} for _, w, x, y in diffs[:50]], "n": len(diffs)},
             )
         )
     return fails
 
 
-def _all_name_diffs(a, b, path=()):
+def _all_name_diffs(a, b, path=(), where=()):
+    """Yields (generic path, concrete path, before, after) for every expression whose names resolve differently."""
     if isinstance(a, dict) and isinstance(b, dict):
         if "names" in a and "names" in b and isinstance(a["names"], list):
             if a["names"] != b["names"]:
-                yield (*path, "names"), a["names"], b["names"]
+                yield (*path, "names"), (*where, "names"), a["names"], b["names"]
             if a.get("keywords") != b.get("keywords"):
-                yield (*path, "keywords"), a.get("keywords"), b.get("keywords")
+                yield (*path, "keywords"), (*where, "keywords"), a.get("keywords"), b.get("keywords")
             return
         for k in a:
             if k in b:
-                yield from _all_name_diffs(a[k], b[k], (*path, _gen(path, k)))
+                yield from _all_name_diffs(a[k], b[k], (*path, _gen(path, k)), (*where, k))
     elif isinstance(a, list) and isinstance(b, list):
-        for x, y in zip(a, b):
-            yield from _all_name_diffs(x, y, (*path, "[]"))
+        for i, (x, y) in enumerate(zip(a, b)):
+            yield from _all_name_diffs(x, y, (*path, "[]"), (*where, i))
 
 
 # ----------------------------------------------------------------------------- case kinds
@@ -628,7 +632,7 @@ def check_case(case, observe=None) -> list[Fail]:
 
 # ----------------------------------------------------------------------------- strategies / search
 def _pkg_cases(ctx):
-    leaves = ctx.scale(6, 8)
+    leaves = ctx.scale(5, 7)
     steer = sorted(ctx.known & set(STEERING))
     static = st.fixed_dictionaries(
         {
@@ -660,13 +664,16 @@ def _pkg_cases(ctx):
                 "agent": st.just(agent),
                 "resolve": st.sampled_from((0, 1, 2)),
                 "parser": st.sampled_from(PARSERS),
-                "full": st.booleans(),
-                "out": st.sampled_from(("stdout", "file", "template")),
+                "full": st.sampled_from((True, False)),
+                "out": st.sampled_from(("template", "file", "stdout")),
                 "steer": st.just(steer),
             },
         )
 
-    return st.one_of(static, static, static, static, dynamic, dynamic, dynamic, cli("static", None), cli("dynamic", True))
+    # one_of() merges identical branches, so weights are drawn explicitly (the branch strategies are built once)
+    branches = {"static": static, "dynamic": dynamic, "cli-static": cli("static", None), "cli-dynamic": cli("dynamic", True)}
+    weights = ("static",) * 5 + ("dynamic",) * 3 + ("cli-static", "cli-dynamic")
+    return st.sampled_from(weights).flatmap(branches.__getitem__)
 
 
 def _known_parsed_sections(case, fail: Fail) -> bool:
@@ -675,27 +682,97 @@ def _known_parsed_sections(case, fail: Fail) -> bool:
     return bool(case.get("parser")) and fail.clause == "identical-json" and fail.kind.startswith("full:") and "docstring.parsed" in fail.kind
 
 
+def _name_diffs(fail: Fail):
+    """[(where, [(before, after) per differing name])] of a names-resolve Fail, or None when it cannot be read."""
+    if fail.clause != "names-resolve" or not isinstance(fail.detail, dict):
+        return None
+    diffs = fail.detail.get("diffs")
+    if not isinstance(diffs, list) or not diffs or fail.detail.get("n") != len(diffs):
+        return None
+    out = []
+    for d in diffs:
+        before, after = d.get("before"), d.get("after")
+        if not isinstance(before, list) or not isinstance(after, list) or len(before) != len(after):
+            return None
+        out.append((d.get("where") or [], [(x, y) for x, y in zip(before, after) if x != y]))
+    return out
+
+
 def _known_init_param_names(case, fail: Fail) -> bool:
     """Instance attributes assigned in `__init__` are built in the scope of the `__init__` function, where a name equal to
-    one of its parameters resolves to `Class(param)`; the reloaded attribute is attached to the class. Only names whose
-    original resolution has that `path(name)` form may differ."""
+    one of its parameters resolves to `Class(param)` and a name defined in its body to `Class.__init__.name`; the reloaded
+    attribute is attached to the class. Every name that differs must have one of these two forms before the round trip,
+    in an attribute value/annotation."""
     import re
 
-    if fail.clause != "names-resolve" or not isinstance(fail.detail, dict):
+    diffs = _name_diffs(fail)
+    if not diffs:
         return False
-    before, after = fail.detail.get("before"), fail.detail.get("after")
-    if not isinstance(before, list) or not isinstance(after, list) or len(before) != len(after):
+    for where, pairs in diffs:
+        if "parameters" in where or not pairs:
+            return False
+        # `name -> pkg.Class(name)` (a parameter of __init__) or `name -> pkg.Class.__init__.name` (defined in its body)
+        if not all(re.fullmatch(r"(\w+)->[\w.]+\(\1\)", x) or re.fullmatch(r"(\w+)->[\w.]+\.__init__\.\1", x) for x, _ in pairs):
+            return False
+    return True
+
+
+def _known_dataclass_inherited_fields(case, fail: Fail) -> bool:
+    """The `__init__` synthesised for a dataclass re-uses the field expressions of its parent dataclasses: their names
+    live in the scope of the parent class; after reload every parameter expression is attached to the subclass. Only
+    parameters of an `__init__`, only a change of the scope prefix of a resolved name, only with dataclasses around."""
+    diffs = _name_diffs(fail)
+    if not diffs or '"dc": true' not in json.dumps(case) and '["known", 2]' not in json.dumps(case):
         return False
-    diffs = [(x, y) for x, y in zip(before, after) if x != y]
-    return bool(diffs) and all(re.fullmatch(r"(\w+)->[\w.]+\(\1\)", x) for x, _ in diffs)
+    for where, pairs in diffs:
+        if "parameters" not in where or where[where.index("parameters") - 1] != "__init__" or not pairs:
+            return False
+        for x, y in pairs:
+            nx, _, px = x.partition("->")
+            ny, _, py = y.partition("->")
+            if nx != ny or "." not in px or not px.endswith("." + nx.split("=")[0]) and not px.endswith(")"):
+                return False
+    return True
 
 
 # slug -> what the generator / comparison does while the finding is listed
 STEERING: dict = {
     "parsed-sections": "full-form identity is compared modulo docstring.parsed when a docstring parser is selected",
-    "init-param-names": "`__init__` parameters are renamed so that no expression of an instance attribute mentions one",
+    "init-param-names": "`__init__` parameters and objects defined in `__init__` bodies are renamed so that no expression of an instance attribute mentions one",
+    "dataclass-inherited-fields": "classes decorated with dataclasses.dataclass are rendered without bases",
 }
-KNOWN: dict = {"parsed-sections": _known_parsed_sections, "init-param-names": _known_init_param_names}
+KNOWN: dict = {
+    "parsed-sections": _known_parsed_sections,
+    "init-param-names": _known_init_param_names,
+    "dataclass-inherited-fields": _known_dataclass_inherited_fields,
+}
+
+
+def _steered(slug: str, case) -> bool:
+    """Did the steering switch `slug` change what this case renders / compares?"""
+    if slug == "parsed-sections":
+        return bool(case.get("parser")) and case.get("kind") in ("pkg", "builtin")
+    if slug == "dataclass-inherited-fields":
+        text = json.dumps(case)
+        return '"dc": true' in text or '["known", 2]' in text
+    if slug == "init-param-names":
+
+        def walk(stmts):
+            for stmt in stmts:
+                if stmt[0] == "class":
+                    if walk(stmt[2]["body"]):
+                        return True
+                elif stmt[0] == "func" and stmt[1] == "__init__" and stmt[2]["selfattrs"]:
+                    p = stmt[2]["params"]
+                    names = [e[0] for e in p["po"] + p["pk"] + p["ko"]] + [e[0] for e in (p["va"], p["vk"]) if e]
+                    names += [inner[1] for inner in stmt[2].get("inner", ())]
+                    if '"param"' in json.dumps(stmt[2]["selfattrs"]) or any(n in G.EXPR_NAMES for n in names):
+                        return True
+            return False
+
+        pkgs = case.get("pkgs") or ([case["pkg"]] if "pkg" in case else [])
+        return any(walk(m["body"]) for pkg in pkgs for m in pkg["mods"].values() if m)
+    return False
 
 
 def strategy(ctx):
@@ -784,6 +861,9 @@ def run_shard(ctx) -> None:
 
     def checked(case):
         observed_box.clear()
+        for slug in case.get("steer", ()):
+            if _steered(slug, case):
+                ctx.excluded(slug)
         return check_case(case, observed_box)
 
     def describe(case):
@@ -791,5 +871,5 @@ def run_shard(ctx) -> None:
 
     strat, salt = strategy(ctx)
     for slug in sorted(ctx.known & set(STEERING)):
-        ctx.excluded(slug, 0)
-    ctx.run_hypothesis(strat, checked, max_examples=ctx.scale(70, 2500), describe=describe, salt=salt)
+        ctx.excluded(slug, 0)  # make the slug visible in the evidence even when no case needed steering
+    ctx.run_hypothesis(strat, checked, max_examples=ctx.scale(120, 2500), describe=describe, salt=salt)
